@@ -11,14 +11,15 @@ Inductive verdict :=
   | Modelled (theorem : string)      (* list-level model, `batch = map single` proved *)
   | PartialModel (theorem : string)  (* list-level model, proved up to the stated restriction *)
   | Finding (signature : string)     (* batch dependent: open known finding with this signature (none at present) *)
+  | NumericBattery (battery : string) (* not modelled: dedicated batched-vs-single battery of harness/numeric_battery.py on exactly this function *)
   | NumericOnly                      (* not modelled: covered by the vectorised-vs-single search only *)
   | NotFieldPath.                    (* mesh validation helpers, not reached from getB/getH/getJ/getM *)
 
 Definition expected_inventory : list (string * string * string * string * verdict) := [
   (("field_BH_circle.py", "BHJM_circle", "agg if -> rebind+store", "np.any(mask3)"), Modelled "guarded_masked_eval_rowwise");
   (("field_BH_circle.py", "BHJM_circle", "agg if -> store", "np.any(mask5)"), Modelled "guarded_masked_eval_rowwise");
-  (("field_BH_cylinder.py", "magnet_cylinder_diametral_Hfield", "agg if -> rebind+store", "np.any(mask_small_r)"), NumericOnly);
-  (("field_BH_cylinder.py", "magnet_cylinder_diametral_Hfield", "agg if -> rebind+store", "np.any(mask_general)"), NumericOnly);
+  (("field_BH_cylinder.py", "magnet_cylinder_diametral_Hfield", "agg if -> rebind+store", "np.any(mask_small_r)"), NumericBattery "magnet_cylinder_diametral_Hfield");
+  (("field_BH_cylinder.py", "magnet_cylinder_diametral_Hfield", "agg if -> rebind+store", "np.any(mask_general)"), NumericBattery "magnet_cylinder_diametral_Hfield");
   (("field_BH_cylinder.py", "BHJM_magnet_cylinder", "agg if -> rebind+store", "any(mask_pol_tv)"), Modelled "guarded_masked_eval_rowwise");
   (("field_BH_cylinder.py", "BHJM_magnet_cylinder", "agg if -> store", "any(mask_pol_ax)"), Modelled "guarded_masked_eval_rowwise");
   (("field_BH_cylinder.py", "BHJM_magnet_cylinder", "agg if -> store", "any(mask_tv_inside)"), Modelled "guarded_masked_eval_rowwise");
@@ -35,7 +36,7 @@ Definition expected_inventory : list (string * string * string * string * verdic
   (("field_BH_triangularmesh.py", "get_disconnected_faces_subsets", "size-test while -> call+loop+rebind", "len(tria_temp) > 0"), NotFieldPath);
   (("field_BH_triangularmesh.py", "get_disconnected_faces_subsets", "size-test while -> call+loop+rebind", "len(first) > lf"), NotFieldPath);
   (("field_BH_triangularmesh.py", "get_disconnected_faces_subsets", "size-test if -> call+rebind", "len(first.intersection(set(r))) > 0"), NotFieldPath);
-  (("field_BH_triangularmesh.py", "lines_end_in_trimesh", "agg if -> rebind+store", "np.any(coincide)"), NumericOnly);
+  (("field_BH_triangularmesh.py", "lines_end_in_trimesh", "agg if -> rebind+store", "np.any(coincide)"), NumericBattery "lines_end_in_trimesh");
   (("field_BH_triangularmesh.py", "BHJM_magnet_trimesh", "size-test if -> rebind", "mesh.ndim != 1"), Modelled "vertex_sets_rowwise");
   (("field_BH_triangularmesh.py", "BHJM_magnet_trimesh", "for-range-size neighbour-compare", "range(1, len(BHJM) + 1)"), Modelled "trimesh_groups_rowwise");
   (("field_BH_triangularmesh.py", "BHJM_magnet_trimesh", "size-test if -> rebind+store", "new_ind == len(BHJM) or mesh[new_ind].shape != mesh[prev_ind].shape or (not np.all(mesh[new_ind] == mesh[prev_ind]))"), Modelled "trimesh_groups_rowwise");
@@ -45,36 +46,36 @@ Definition expected_inventory : list (string * string * string * string * verdic
   (("special_cel.py", "cel_iter", "size-test if -> loop+rebind+store", "n_input < 15"), Modelled "cel_iter_no_size_dependence");
   (("special_cel.py", "cel_iter", "for-range-size", "range(n_input)"), Modelled "cel_iter_no_size_dependence");
   (("special_cel.py", "cel_iterv", "agg while -> rebind", "np.any(np.fabs(g - qc) >= qc * 1e-08)"), PartialModel "unmasked_loop_partial");
-  (("special_el3.py", "el3v", "agg if -> loop+rebind+store", "any(mask2)"), NumericOnly);
-  (("special_el3.py", "el3v", "agg if -> raise", "np.any(w == 0)"), NumericOnly);
+  (("special_el3.py", "el3v", "agg if -> loop+rebind+store", "any(mask2)"), NumericBattery "el3, el3_angle");
+  (("special_el3.py", "el3v", "agg if -> raise", "np.any(w == 0)"), NumericBattery "el3, el3_angle");
   (("special_el3.py", "el3v", "agg if -> store", "np.any(mask6)"), Modelled "guarded_masked_eval_rowwise");
   (("special_el3.py", "el3v", "agg if -> store", "np.any(mask6x)"), Modelled "guarded_masked_eval_rowwise");
-  (("special_el3.py", "el3v", "agg if -> rebind+store", "np.any(bo)"), NumericOnly);
-  (("special_el3.py", "el3v", "agg if -> rebind+store", "np.any(mask7)"), NumericOnly);
-  (("special_el3.py", "el3v", "agg if -> rebind+store", "np.any(box)"), NumericOnly);
+  (("special_el3.py", "el3v", "agg if -> rebind+store", "np.any(bo)"), NumericBattery "el3, el3_angle");
+  (("special_el3.py", "el3v", "agg if -> rebind+store", "np.any(mask7)"), NumericBattery "el3, el3_angle");
+  (("special_el3.py", "el3v", "agg if -> rebind+store", "np.any(box)"), NumericBattery "el3, el3_angle");
   (("special_el3.py", "el3v", "agg if -> store", "np.any(mask8)"), Modelled "guarded_masked_eval_rowwise");
   (("special_el3.py", "el3v", "agg if -> store", "np.any(mask8x)"), Modelled "guarded_masked_eval_rowwise");
   (("special_el3.py", "el3v", "agg if -> store", "np.any(mask9)"), Modelled "guarded_masked_eval_rowwise");
-  (("special_el3.py", "el3v", "agg while -> rebind+store", "np.any(mask10)"), NumericOnly);
-  (("special_el3.py", "el3v", "agg if -> rebind+store", "np.any(bo10)"), NumericOnly);
-  (("special_el3.py", "el3v", "agg if -> rebind+store", "np.any(bo10x)"), NumericOnly);
+  (("special_el3.py", "el3v", "agg while -> rebind+store", "np.any(mask10)"), NumericBattery "el3, el3_angle");
+  (("special_el3.py", "el3v", "agg if -> rebind+store", "np.any(bo10)"), NumericBattery "el3, el3_angle");
+  (("special_el3.py", "el3v", "agg if -> rebind+store", "np.any(bo10x)"), NumericBattery "el3, el3_angle");
   (("special_el3.py", "el3v", "agg if -> store", "np.any(bo10x_bk)"), Modelled "guarded_masked_eval_rowwise");
-  (("special_el3.py", "el3v", "agg if -> rebind+store", "np.any(bo10x_bkx)"), NumericOnly);
-  (("special_el3.py", "el3v", "agg if -> rebind+store", "np.any(mask11)"), NumericOnly);
-  (("special_el3.py", "el3v", "agg if -> rebind+store", "np.any(bo11)"), NumericOnly);
+  (("special_el3.py", "el3v", "agg if -> rebind+store", "np.any(bo10x_bkx)"), NumericBattery "el3, el3_angle");
+  (("special_el3.py", "el3v", "agg if -> rebind+store", "np.any(mask11)"), NumericBattery "el3, el3_angle");
+  (("special_el3.py", "el3v", "agg if -> rebind+store", "np.any(bo11)"), NumericBattery "el3, el3_angle");
   (("special_el3.py", "el3v", "agg if -> store", "np.any(bo11x)"), Modelled "guarded_masked_eval_rowwise");
-  (("special_el3.py", "el3v", "agg if -> rebind+store", "np.any(bo)"), NumericOnly);
-  (("special_el3.py", "el3v", "agg if -> rebind+store", "np.any(box)"), NumericOnly);
-  (("special_el3.py", "el3", "size-test if -> return", "n_input < 10"), NumericOnly);
+  (("special_el3.py", "el3v", "agg if -> rebind+store", "np.any(bo)"), NumericBattery "el3, el3_angle");
+  (("special_el3.py", "el3v", "agg if -> rebind+store", "np.any(box)"), NumericBattery "el3, el3_angle");
+  (("special_el3.py", "el3", "size-test if -> return", "n_input < 10"), NumericBattery "el3");
   (("special_el3.py", "el3_angle", "agg if -> store", "np.any(mask1)"), Modelled "guarded_masked_eval_rowwise");
   (("special_el3.py", "el3_angle", "agg if -> store", "np.any(mask2)"), Modelled "guarded_masked_eval_rowwise");
-  (("special_el3.py", "el3_angle", "agg if -> rebind+store", "np.any(mask3)"), NumericOnly);
+  (("special_el3.py", "el3_angle", "agg if -> rebind+store", "np.any(mask3)"), NumericBattery "el3_angle");
   (("special_el3.py", "el3_angle", "agg if -> store", "np.any(mask3a)"), Modelled "guarded_masked_eval_rowwise");
   (("special_el3.py", "el3_angle", "agg if -> store", "np.any(mask3b)"), Modelled "guarded_masked_eval_rowwise");
-  (("special_el3.py", "el3_angle", "agg if -> rebind+store", "np.any(mask3c)"), NumericOnly);
-  (("special_el3.py", "el3_angle", "agg if -> rebind+store", "np.any(mask3x)"), NumericOnly);
-  (("special_el3.py", "el3_angle", "agg if -> rebind+store", "np.any(mask3xa)"), NumericOnly);
-  (("special_el3.py", "el3_angle", "agg if -> rebind+store", "np.any(mask3xb)"), NumericOnly);
+  (("special_el3.py", "el3_angle", "agg if -> rebind+store", "np.any(mask3c)"), NumericBattery "el3_angle");
+  (("special_el3.py", "el3_angle", "agg if -> rebind+store", "np.any(mask3x)"), NumericBattery "el3_angle");
+  (("special_el3.py", "el3_angle", "agg if -> rebind+store", "np.any(mask3xa)"), NumericBattery "el3_angle");
+  (("special_el3.py", "el3_angle", "agg if -> rebind+store", "np.any(mask3xb)"), NumericBattery "el3_angle");
   (("special_el3.py", "el3_angle", "agg if -> store", "np.any(mask3xc)"), Modelled "guarded_masked_eval_rowwise");
   (("field_wrap_BH.py", "tile_group_property", "size-test if -> rebind", "not np.isscalar(out[0]) and any((o.shape != out[0].shape for o in out))"), Modelled "vertex_sets_rowwise");
   (("field_wrap_BH.py", "tile_group_property", "agg if -> rebind", "any((o.shape != out[0].shape for o in out))"), Modelled "vertex_sets_rowwise");
@@ -92,11 +93,13 @@ Proof. reflexivity. Qed.
 
 Definition is_finding (v : verdict) : bool := match v with Finding _ => true | _ => false end.
 Definition is_unmodelled (v : verdict) : bool := match v with NumericOnly => true | _ => false end.
+Definition is_battery (v : verdict) : bool := match v with NumericBattery _ => true | _ => false end.
 
 Theorem inventory_census :
   List.length expected_inventory = 70%nat /\
   List.length (filter (fun e => is_finding (snd e)) expected_inventory) = 0%nat /\
-  List.length (filter (fun e => is_unmodelled (snd e)) expected_inventory) = 22%nat.
+  List.length (filter (fun e => is_unmodelled (snd e)) expected_inventory) = 0%nat /\
+  List.length (filter (fun e => is_battery (snd e)) expected_inventory) = 22%nat.
 Proof. repeat split; reflexivity. Qed.
 
 (* ---- the translated TriangularMesh loop bounds give every row its own mesh *)
